@@ -299,8 +299,20 @@ class ModelGen:
                     wt=[dict(wshape=w["wshape"], mats=w["mats"]) for w in self.wt],
                     cor=[])
 
+    def to_json(self):
+        return dict(ty=self.ty, kinds=self.kinds, vals=self.vals, params=self.params, blocks=self.blocks, wt=self.wt,
+                    consts=self.consts)
+
+    @classmethod
+    def from_json(cls, d):
+        g = cls.__new__(cls)
+        g.ty, g.kinds, g.vals, g.consts = d["ty"], d["kinds"], d["vals"], d["consts"]
+        g.params = [dict(p, shape=tuple(p["shape"])) for p in d["params"]]
+        g.blocks, g.wt = d["blocks"], d["wt"]
+        return g
+
     def widths(self):
-        """Column layouts: name -> (width, keep indices (0-based), slots per element)."""
+        """Column layouts: name -> (width, keep indices (0-based))."""
         out = {}
         for lay in ("emb", "tan", "emb_all", "tan_all"):
             off, keep = 0, []
@@ -663,24 +675,14 @@ def poly_kernel(torch, a0, a1):
     return PolyKernel()
 
 
-def cor_setup(rng, g, dtype, mode):
-    """-> (desc 'cor' list for TLC, function making the optimizer kwargs, record list)."""
-    import torch
-    pp = pypose()
+def cor_spec(rng, g, dtype, mode):
+    """A JSON description of the corrector / kernel configuration of a run."""
     nb = len(g.blocks)
-    record = []
     if mode == "mat":
-        Cs = rand_cmats(rng, g)
-        cor = [dict(t="mat", C=[[[D(x) for x in row] for row in C] for C in blk]) for blk in Cs]
-        form = rng.choice(["single", "list"]) if nb > 1 else "single"
-        cls = lattice_corrector(torch, g, Cs, record)
-
-        def kwargs():
-            return dict(corrector=cls() if form == "single" else [cls(only=b) for b in range(nb)])
-        return cor, kwargs, record, "mat/" + form
-    # FastTriggs with polynomial kernels (one kernel for all blocks, or a list with one kernel per block)
+        return dict(mode="mat", Cs=rand_cmats(rng, g), form=rng.choice(["single", "list"]) if nb > 1 else "single")
     xs = item_sqnorms(g, dtype)
-    form = rng.choice(["kernel", "kernel_list", "corrector", "triggs_linear"]) if nb > 1 else rng.choice(["kernel", "corrector", "triggs_linear"])
+    form = rng.choice(["kernel", "kernel_list", "kernel_list", "corrector", "triggs_linear"]) if nb > 1 \
+        else rng.choice(["kernel", "corrector", "triggs_linear"])
     if form == "kernel_list":
         ks = [pick_poly_kernel(rng, x) for x in xs]
     elif form == "triggs_linear":
@@ -688,22 +690,34 @@ def cor_setup(rng, g, dtype, mode):
         ks = [(k[0] if k[0] > 0 else 1.0, 0.0)] * nb
     else:
         ks = [pick_poly_kernel(rng, [x for blk in xs for x in blk])] * nb
-    cor = []
-    for b in range(nb):
-        a0, a1 = ks[b]
-        cor.append(dict(t="ft", dk=[D(a0), D(a1)], s=[D(math.sqrt(a0 + a1 * x)) for x in xs[b]]))
+    return dict(mode="ft", ks=[list(k) for k in ks], form=form, xs=xs)
 
-    def kwargs():
-        if form == "kernel":
-            return dict(kernel=poly_kernel(torch, *ks[0]))
-        if form == "kernel_list":
-            return dict(kernel=[poly_kernel(torch, *k) for k in ks])
-        if form == "corrector":
-            k = poly_kernel(torch, *ks[0])
-            return dict(kernel=k, corrector=pp.optim.corrector.FastTriggs(k))
+
+def cor_make(g, sp):
+    """-> (desc 'cor' list for TLC, optimizer kwargs, record list)."""
+    import torch
+    pp = pypose()
+    nb = len(g.blocks)
+    record = []
+    form = sp["form"]
+    if sp["mode"] == "mat":
+        cor = [dict(t="mat", C=[[[D(x) for x in row] for row in C] for C in blk]) for blk in sp["Cs"]]
+        cls = lattice_corrector(torch, g, sp["Cs"], record)
+        return cor, dict(corrector=cls() if form == "single" else [cls(only=b) for b in range(nb)]), record
+    ks = sp["ks"]
+    cor = [dict(t="ft", dk=[D(ks[b][0]), D(ks[b][1])], s=[D(math.sqrt(ks[b][0] + ks[b][1] * x)) for x in sp["xs"][b]])
+           for b in range(nb)]
+    if form == "kernel":
+        kw = dict(kernel=poly_kernel(torch, *ks[0]))
+    elif form == "kernel_list":
+        kw = dict(kernel=[poly_kernel(torch, *k) for k in ks])
+    elif form == "corrector":
         k = poly_kernel(torch, *ks[0])
-        return dict(kernel=k, corrector=pp.optim.corrector.Triggs(k))     # rho'' = 0: Triggs = FastTriggs
-    return cor, kwargs, record, "ft/" + form
+        kw = dict(kernel=k, corrector=pp.optim.corrector.FastTriggs(k))
+    else:
+        k = poly_kernel(torch, *ks[0])
+        kw = dict(kernel=k, corrector=pp.optim.corrector.Triggs(k))          # rho'' = 0: Triggs = FastTriggs
+    return cor, kw, record
 
 
 # ====================================================================== one recorded step
@@ -719,9 +733,8 @@ def run_step(ctx, g, opt, dtype, cfg):
     desc = g.desc()
     record = None
     if cfg.get("cor") is not None:
-        desc["cor"], mk, record, _ = cfg["cor"]
-        del record[:]
-        kw.update(mk())
+        desc["cor"], ckw, record = cor_make(g, cfg["cor"])
+        kw.update(ckw)
     w_ctor, w_step = (weight, None) if cfg.get("weight_at", "ctor") == "ctor" else (None, weight)
     if cfg.get("weight_at") == "both" and weight is not None:     # the step argument overrides the constructor's
         w_ctor = [torch.eye(b["R"], dtype=dtype) * 7 for b in g.blocks]
@@ -733,7 +746,7 @@ def run_step(ctx, g, opt, dtype, cfg):
         if opt == "GN":
             o = pp.optim.GN(model, weight=w_ctor, **kw)
         else:
-            strat = cfg["strategy"](pp)
+            strat = make_strategy(pp, cfg["strategy"])
             o = pp.optim.LM(model, strategy=strat, weight=w_ctor, reject=rej, min=cfg["mn"], max=cfg["mx"], **kw)
         holder[0] = o
         del model.snaps[:]
@@ -745,8 +758,9 @@ def run_step(ctx, g, opt, dtype, cfg):
         out, raised = "raise", repr(ex)[:300]
     final = model.snapshot()
     lay = solver.calls[0]["layout"] if solver.calls else "emb"
-    meta = dict(raised=raised, cls=g.cls(), dtype=str(dtype), trials=len(solver.calls),
-                cfg={k: v for k, v in cfg.items() if isinstance(v, (int, float, str, bool))})
+    meta = dict(raised=raised, cls=g.cls(), dtype=str(dtype).split(".")[1], trials=len(solver.calls),
+                cor=(cfg["cor"]["mode"] + "/" + cfg["cor"]["form"]) if cfg.get("cor") else "none",
+                replay=dict(kind="first" if cfg.get("first") else "step", g=g.to_json(), opt=opt, cfg=cfg))
     if cfg.get("first"):
         sc = cfg["first"]
         chg = []
@@ -773,6 +787,9 @@ def run_step(ctx, g, opt, dtype, cfg):
         A = c["A"]
         trials.append(dict(lam=D(c["lam"]), A=mat_rows(A if A.dim() == 2 else A.reshape(-1, A.shape[-1])), b=L.dyvec(c["b"]),
                            dx=[D(x) for x in c["dx"]], seen=seen))
+        if bool(torch.isfinite(A).all() and torch.isfinite(c["b"]).all()) and \
+                (any(x == L.SENTINEL for r in trials[-1]["A"] for x in r) or L.SENTINEL in trials[-1]["b"]):
+            meta["overflow"] = True        # finite values outside the [m, e] code (|m| < 2^30, e <= 24): cannot be judged
     cin = []
     if record:
         nb = len(g.blocks)
@@ -784,22 +801,34 @@ def run_step(ctx, g, opt, dtype, cfg):
     return ev, meta
 
 
+def make_strategy(pp, sp):
+    if sp["kind"] == "constant":
+        return pp.optim.strategy.Constant(damping=sp["damping"])
+    if sp["kind"] == "script":
+        return ScriptStrategy(sp["lams"])
+    if sp["kind"] == "trust":
+        return pp.optim.strategy.TrustRegion(radius=sp["radius"], up=2.0, down=0.5, factor=0.5)
+    return pp.optim.strategy.Adaptive(damping=sp["damping"], up=2.0, down=0.5)
+
+
 def lm_cfg(rng, g, dtype_name, rej=None):
     f32 = dtype_name == "float32"
     rej = rng.choice([0, 1, 2, 3]) if rej is None else rej
     lam_pool = [1.0, 2.0, 3.0] if f32 else [0.0625, 0.125, 0.25, 0.5, 1.0, 2.0, 4.0, 3.0]
     kind = rng.choice(["constant", "constant", "script", "trust", "adaptive"])
+    if rej >= 2 and not f32:
+        lam_pool = [0.25, 0.5, 1.0, 2.0, 4.0, 3.0]
     lam0 = rng.choice(lam_pool)
+    if kind == "adaptive" and not f32:
+        lam0 = rng.choice([0.5, 1.0, 2.0])
     if kind == "constant":
-        strat = lambda pp: pp.optim.strategy.Constant(damping=lam0)
+        strat = dict(kind=kind, damping=lam0)
     elif kind == "script":
-        lams = [rng.choice(lam_pool) for _ in range(rej + 2)]
-        strat = lambda pp: ScriptStrategy(lams)
+        strat = dict(kind=kind, lams=[rng.choice(lam_pool) for _ in range(rej + 2)])
     elif kind == "trust":
-        rad = rng.choice([1.0, 2.0, 0.5] if f32 else [1.0, 4.0, 0.5, 16.0])
-        strat = lambda pp: pp.optim.strategy.TrustRegion(radius=rad, up=2.0, down=0.5, factor=0.5)
+        strat = dict(kind=kind, radius=rng.choice([1.0, 2.0, 0.5] if f32 else [1.0, 4.0, 0.5, 16.0]))
     else:
-        strat = lambda pp: pp.optim.strategy.Adaptive(damping=lam0 if not f32 else 1.0, up=2.0, down=0.5)
+        strat = dict(kind=kind, damping=lam0 if not f32 else 1.0)
     mn = rng.choice([2.0 ** -10, 2.0 ** -6, 1.0, 4.0, 16.0])
     mx = rng.choice([m for m in [8.0, 64.0, 1024.0, 2.0 ** 20] if m >= mn])
     script = [rand_delta(rng, g, big=True) for _ in range(rej)] + [rand_delta(rng, g, big=False)]
@@ -869,6 +898,7 @@ def run_e2e(ctx, g, opt, dtype, cfg):
     zero = [[0.0] * TDIM(g.ty, p["kind"], p["dim"]) for p in g.params if not p["fr"] for _ in p["el"]]
     twin_cfg = dict(cfg, script=[zero], reject=0)
     ev, meta = run_step(ctx, g, opt, dtype, twin_cfg)
+    meta["replay"] = dict(kind="e2e", g=g.to_json(), opt=opt, cfg=cfg)
     model, inp, target, weight = build(g, dtype)
     x0 = model.snapshot()
     out2 = "ok"
@@ -876,7 +906,7 @@ def run_e2e(ctx, g, opt, dtype, cfg):
         if opt == "GN":
             o = pp.optim.GN(model, weight=weight)
         else:
-            o = pp.optim.LM(model, strategy=cfg["strategy"](pp), weight=weight, reject=0, min=cfg["mn"], max=cfg["mx"])
+            o = pp.optim.LM(model, strategy=make_strategy(pp, cfg["strategy"]), weight=weight, reject=0, min=cfg["mn"], max=cfg["mx"])
         o.step(inp, target=target) if target is not None else o.step(inp)
     except Exception as ex:
         out2, meta["raised2"] = "raise", repr(ex)[:300]
@@ -895,7 +925,9 @@ def run_e2e(ctx, g, opt, dtype, cfg):
         for k in range(len(p["el"])):
             delta += [Fraction(float(b)) - Fraction(float(a)) for a, b in zip(t0[k], t1[k])]
             base += [abs(Fraction(float(a))) for a in t0[k]]
-    mag = [abs(d) + x for d, x in zip(delta, base)]
+    # norm-wise scale: the solvers' backward error is relative to the size of the whole increment / parameter vector
+    top = max([abs(d) + x for d, x in zip(delta, base)] or [Fraction(0)])
+    mag = [top] * len(delta)
     # the recorded system (as logged: dyadic codes), restricted to the tangent columns
     A = [[Fraction(c[0], 1 << c[1]) for c in row] for row in e["sys"]["A"]]
     b = [Fraction(c[0], 1 << c[1]) for c in e["sys"]["b"]]
@@ -946,11 +978,29 @@ def judge(ctx, traces, metas, verdicts):
             at = int(v.split("@")[1])
             ev, meta = tr["ev"][at - 1], ms[at - 1]
             if v.startswith("machinery"):
-                raise MachineryError("trace spec reports %s for %s" % (v, json.dumps(meta)[:400]))
+                raise MachineryError("trace spec reports %s for %s" % (v, json.dumps(meta["cls"])[:400]))
+            rp = dict(meta["replay"], dtype=meta["dtype"])
             ctx.violation(clause_key(ev, meta, v),
-                          "%s %s on model %s: clause %s%s" % (ev["act"], ev["opt"], json.dumps(meta["cls"]), v.split("@")[0],
-                                                            (" raised " + meta["raised"]) if meta.get("raised") else ""),
-                          {"trace": {"cfg": tr["cfg"], "ev": [ev]}, "meta": meta})
+                          "%s %s on model %s (%s, %s): clause %s%s" % (ev["act"], ev["opt"], json.dumps(meta["cls"]), meta["dtype"],
+                                                                     meta.get("tag", ""), v.split("@")[0],
+                                                                     (" raised " + meta["raised"]) if meta.get("raised") else ""),
+                          rp)
+
+
+def replay(ctx, case):
+    """Re-run a recorded case on the current tree."""
+    import torch
+    if "row" in case:
+        table_replay(ctx, rows=[case["row"]])
+        return
+    g = ModelGen.from_json(case["g"])
+    dtype = getattr(torch, case["dtype"])
+    if case["kind"] == "e2e":
+        ev, meta = run_e2e(ctx, g, case["opt"], dtype, case["cfg"])
+    else:
+        ev, meta = run_step(ctx, g, case["opt"], dtype, case["cfg"])
+    tr = {"cfg": {"n": 0}, "ev": [ev]}
+    judge(ctx, [tr], [[meta]], ctx.validate("NormalEqTrace", "NormalEqTrace.cfg", [tr], "replay"))
 
 
 class Batch:
@@ -958,9 +1008,12 @@ class Batch:
     to TLC once."""
 
     def __init__(self):
-        self.traces, self.metas, self.index, self.count = [], [], {}, 0
+        self.traces, self.metas, self.index, self.count, self.unjudged = [], [], {}, 0, 0
 
     def add(self, ev, meta, tag):
+        if meta.get("overflow"):
+            self.unjudged += 1
+            return
         self.count += 1
         key = json.dumps(ev, sort_keys=True)
         if key in self.index:
@@ -992,13 +1045,14 @@ def design(ctx):
             ctx.violation("design/%s/%s" % (r["cfg"], r["violated"][0]), "NormalEqMC violates %s" % r["violated"])
 
 
-def table_replay(ctx):
+def table_replay(ctx, rows=None):
     """spec -> code: every row of NormalEqGen through the real LM and GN on the linear model J theta + R at theta = 0."""
     import torch
     pp = pypose()
-    out = str(ctx.work / "normaleq_table.json")
-    ctx.tlc("NormalEqGen", "NormalEqGen_q.cfg" if ctx.quick else "NormalEqGen_t.cfg", env={"OUT_FILE": out}, workers=1)
-    rows = json.load(open(out))["rows"]
+    if rows is None:
+        out = str(ctx.work / "normaleq_table.json")
+        ctx.tlc("NormalEqGen", "NormalEqGen_q.cfg" if ctx.quick else "NormalEqGen_t.cfg", env={"OUT_FILE": out}, workers=1)
+        rows = json.load(open(out))["rows"]
     fr = lambda d: Fraction(d[0], 1 << d[1])
     fl = lambda d: d[0] / float(1 << d[1])
     f64 = torch.float64
@@ -1078,11 +1132,10 @@ def steps_for(ctx, batch, g, dtype, tagbase, cor_mode=None, lm_rej=None):
     for opt in ("GN", "LM"):
         cfg = gn_cfg(rng, g) if opt == "GN" else lm_cfg(rng, g, dn, rej=lm_rej)
         cfg.update(variation(rng, g))
-        cor = cor_setup(rng, g, dtype, cor_mode) if cor_mode else None
+        cor = cor_spec(rng, g, dtype, cor_mode) if cor_mode else None
         for vec in (True, False):          # vectorize on / off must give the same events
             c = dict(cfg, vectorize=vec, cor=cor)
             ev, meta = run_step(ctx, g, opt, dtype, c)
-            meta["cor"] = cor[3] if cor else "none"
             batch.add(ev, meta, "%s/%s/vec=%s/%s" % (tagbase, opt, vec, dn))
             cl = meta["cls"]
             ctx.cover(json.dumps([opt, cl["kinds"], cl["frozen"], cl["batched"], cl["nblocks"], cl["w"], meta["cor"],
@@ -1109,10 +1162,7 @@ def run(ctx):
                        "asymmetric weights are outside the property (SPD) and are not generated",
                        "the accept/reject decision of LM is C08's: a final point equal to the base point is accepted here"]
     if ctx.replay:
-        case = json.load(open(ctx.replay))["case"]
-        tr = case["trace"]
-        v = ctx.validate("NormalEqTrace", "NormalEqTrace.cfg", [tr], "replay")
-        judge(ctx, [tr], [[case["meta"]]], v)
+        replay(ctx, json.load(open(ctx.replay))["case"])
         return
     design(ctx)
     table_replay(ctx)
@@ -1155,12 +1205,13 @@ def run(ctx):
             cfg = gn_cfg(rng, g) if opt == "GN" else lm_cfg(rng, g, str(dtype).split(".")[1], rej=0)
             if opt == "LM":
                 lam = rng.choice([0.5, 1.0, 2.0])
-                cfg.update(mx=2.0 ** 20, strategy=(lambda lam: (lambda pp: pp.optim.strategy.Constant(damping=lam)))(lam))
+                cfg.update(mx=2.0 ** 20, strategy=dict(kind="constant", damping=lam))
             ev, meta = run_e2e(ctx, g, opt, dtype, cfg)
             batch.add(ev, meta, "e2e%d/%s" % (i, opt))
             emeas = [max(a, b) for a, b in zip(emeas, meta.get("measures", [0, 0, 0]))]
             ctx.cover(json.dumps(["e2e", opt, meta["cls"]["kinds"], meta.get("rank_deficiency", -1) > 0, str(dtype)]))
     ctx.extra["e2e_max_ulps(normal_eq, null, lm_residual)"] = emeas
+    ctx.extra["events_unjudged_code_overflow"] = batch.unjudged
     ctx.extra["events_recorded"] = batch.count
     ctx.extra["events_distinct"] = len(batch.traces)
     ctx.sample({"tag": batch.metas[0][0]["tag"], "event": batch.traces[0]["ev"][0]})
